@@ -198,7 +198,10 @@ fn check_single(r: &Rectangle, small: bool, resize_to: Size) -> Res {
             }
         }
     }
-    for a in ANCHORS {
+    for (k, a) in ANCHORS.into_iter().enumerate() {
+        // the decomposition of the nine anchors, by position in the (row-major) table, not by the library
+        let (tx, ty) = ([AnchorX::Left, AnchorX::Center, AnchorX::Right][k % 3], [AnchorY::Top, AnchorY::Center, AnchorY::Bottom][k / 3]);
+        ensure!(a.x() == tx && a.y() == ty && AnchorPoint::from_xy(tx, ty) == a, "anchor_decomposition", "{:?}: x() = {:?}, y() = {:?}, from_xy({:?}, {:?}) = {:?}", a, a.x(), a.y(), tx, ty, AnchorPoint::from_xy(tx, ty));
         let p = r.anchor_point(a);
         let exx = match a.x() {
             AnchorX::Left => x0,
@@ -374,6 +377,7 @@ fn single_random(d: &mut Dec, cx: &mut Cx) -> Res {
     let r = big_rect(d);
     let t = Size::new(d.u(0, 40), d.u(0, 40));
     cx.describe(|| format!("{:?} resize_to={:?}", r, t));
+    ensure!(Rectangle::new_at_origin(r.size) == Rectangle::new(Point::zero(), r.size) && Rectangle::zero() == Rectangle::new(Point::zero(), Size::zero()), "constructors", "new_at_origin / zero");
     cx.nontrivial(r.size.width >= 2 && r.size.height >= 2);
     cx.class(if r.is_zero_sized() { "zero_sized" } else { "non_empty" });
     check_single(&r, r.size.width <= 12 && r.size.height <= 12, t)?;
